@@ -7,7 +7,7 @@
 //!  A   simple glyphs: every point sequence of length <= n whose per-axis deltas come from
 //!      D = {0, ±1, ±255, ±256, 32767, -32768} (coordinates must stay in i16), each point on/off curve,
 //!      every split into contours, instruction lengths {0,1,2,3} (n = 3 quick; n = 4 thorough over
-//!      D4 = {0, ±1, ±255, ±256}); the one-point sub-family is additionally built under the long
+//!      D4 = {0, ±255, ±256}); the one-point sub-family is additionally built under the long
 //!      location format
 //!  A2  flag-run families: r points of one flag class (32 classes) for every r in 1..=R (R = 520 quick,
 //!      1030 thorough), with 0/1/2 points of a different class before and after
@@ -730,7 +730,7 @@ fn compare_composite(g: &rg::CompositeGlyph, comps: &[CompSpec], bbox: &[i16; 4]
 // ---------------------------------------------------------------------------
 
 const D9: [i32; 9] = [0, 1, -1, 255, -255, 256, -256, 32767, -32768];
-const D7: [i32; 7] = [0, 1, -1, 255, -255, 256, -256];
+const D7: [i32; 5] = [0, 255, -255, 256, -256];
 
 /// all compositions of n (contour splits), fixed order
 fn compositions(n: usize) -> Vec<Vec<usize>> {
@@ -750,10 +750,11 @@ fn compositions(n: usize) -> Vec<Vec<usize>> {
 
 fn simple_family(run: &Run) {
     let n_max = run.tier.pick(3usize, 4usize);
+    let quick = run.tier == Tier::Quick;
     run.bound("A.deltas_D", json!(D9));
     run.bound("A.deltas_D4_for_4_points", json!(D7));
     run.bound("A.max_points", json!(n_max));
-    run.bound("A.instruction_lengths", json!("{0,1,2,3} for <=2 points, {0,1} for 3 points, {0} for 4 points"));
+    run.bound("A.instruction_lengths", json!("{0,1,2,3} for <=2 points, {0,1} for 3 points (quick: 1 only with the single-contour split), {0} for 4 points"));
     run.bound("A.contour_splits", json!("all compositions of the point count"));
     // per-point alphabet: (dx, dy, on)
     let alpha = |d: &[i32]| -> Vec<(i32, i32, bool)> {
@@ -810,6 +811,11 @@ fn simple_family(run: &Run) {
                                 at += s;
                             }
                             for &il in instr_lens {
+                                // quick tier, 3 points: the second instruction length only for the
+                                // single-contour split (keeps the tier under a minute on a busy machine)
+                                if quick && n == 3 && il != 0 && split.len() != 1 {
+                                    continue;
+                                }
                                 let spec = GSpec::Simple {
                                     contours: contours.clone(),
                                     instr: (0..il).map(|i| 0xB0 + i as u8).collect(),
@@ -1099,7 +1105,8 @@ fn sequence_family(run: &Run) {
             let case = || desc.clone();
             if let Some(b) = check_sequence(run, "C.sized", &seq, 0, &mut l, &case) {
                 let total: usize = b.lens.iter().sum();
-                if total != t {
+                if total != t && run.violations() == 0 {
+                    // the size formula of sized_glyph no longer holds and nothing else explained it
                     run.machinery_error(&format!("sized family: built {total:#x}, wanted {t:#x}"));
                 }
                 let mut h = Fnv::new();
@@ -1458,24 +1465,37 @@ fn for_each_contour(k: usize, shift: (f64, f64), fractional: bool, f: &mut dyn F
                 let d = if cd[j] < 3 { CTRL_DELTA[cd[j]] } else { (0.5, 0.0) };
                 ctrl[i] = (CTRL_BASE[i].0 + d.0, CTRL_BASE[i].1 + d.1);
             }
-            // anchors: between two quads -> midpoint candidates
-            let between: Vec<usize> = (0..k).filter(|&i| is_q(i) && is_q((i + k - 1) % k) && k > 1).collect();
-            let nopt = 6usize;
-            let mut ad = vec![0usize; between.len()];
+            // anchors: per anchor a list of candidate positions.
+            //  between two quads: the implied-point candidates (exact midpoint of the two controls,
+            //    off by one in x / y, off by a half, far);
+            //  between a quad and a line, or two lines: the base position and the midpoint of its two
+            //    neighbours (a point that must NOT be elided although it is a midpoint).
+            let mid = |a: (f64, f64), b: (f64, f64)| ((a.0 + b.0) / 2.0, (a.1 + b.1) / 2.0);
+            let options: Vec<Vec<(f64, f64)>> = (0..k)
+                .map(|i| {
+                    let prev = (i + k - 1) % k;
+                    let next = (i + 1) % k;
+                    if k == 1 {
+                        return vec![ANCHOR_BASE[i]];
+                    }
+                    if is_q(prev) && is_q(i) {
+                        let m = mid(ctrl[prev], ctrl[i]);
+                        return vec![m, (m.0 + 1.0, m.1), (m.0, m.1 - 1.0), (m.0 + 0.5, m.1), (m.0, m.1 + 0.5), ANCHOR_BASE[i]];
+                    }
+                    let before = if is_q(prev) { ctrl[prev] } else { ANCHOR_BASE[prev] };
+                    let after = if is_q(i) { ctrl[i] } else { ANCHOR_BASE[next] };
+                    let m = mid(before, after);
+                    let mut v = vec![ANCHOR_BASE[i]];
+                    if k >= 3 && m != ANCHOR_BASE[prev] && m != ANCHOR_BASE[next] && m != ANCHOR_BASE[i] {
+                        v.push(m);
+                    }
+                    v
+                })
+                .collect();
+            let radices: Vec<usize> = options.iter().map(|o| o.len()).collect();
+            let mut ad = vec![0usize; k];
             loop {
-                let mut anchors: Vec<(f64, f64)> = (0..k).map(|i| ANCHOR_BASE[i]).collect();
-                for (j, &i) in between.iter().enumerate() {
-                    let (c0, c1) = (ctrl[(i + k - 1) % k], ctrl[i]);
-                    let mid = ((c0.0 + c1.0) / 2.0, (c0.1 + c1.1) / 2.0);
-                    anchors[i] = match ad[j] {
-                        0 => mid,
-                        1 => (mid.0 + 1.0, mid.1),
-                        2 => (mid.0, mid.1 - 1.0),
-                        3 => (mid.0 + 0.5, mid.1),
-                        4 => (mid.0, mid.1 + 0.5),
-                        _ => ANCHOR_BASE[i],
-                    };
-                }
+                let anchors: Vec<(f64, f64)> = (0..k).map(|i| options[i][ad[i]]).collect();
                 let has_fraction = anchors.iter().chain(ctrl.iter()).any(|p| p.0.fract() != 0.0 || p.1.fract() != 0.0);
                 if fractional || !has_fraction {
                     for style in 0..2 {
@@ -1499,7 +1519,7 @@ fn for_each_contour(k: usize, shift: (f64, f64), fractional: bool, f: &mut dyn F
                         f(els);
                     }
                 }
-                if !next_digits(&mut ad, nopt) {
+                if !next_digits_mixed(&mut ad, &radices) {
                     break;
                 }
             }
@@ -1508,6 +1528,18 @@ fn for_each_contour(k: usize, shift: (f64, f64), fractional: bool, f: &mut dyn F
             }
         }
     }
+}
+
+/// advance digits with per-position radices (last digit fastest); false when they wrap to all zero
+fn next_digits_mixed(d: &mut [usize], radices: &[usize]) -> bool {
+    for i in (0..d.len()).rev() {
+        d[i] += 1;
+        if d[i] < radices[i] {
+            return true;
+        }
+        d[i] = 0;
+    }
+    false
 }
 
 /// advance mixed-radix digits (last digit fastest); false when they wrap around to all zero
@@ -1527,6 +1559,7 @@ fn path_family(run: &Run) {
     run.bound("D.max_segments", json!(kmax));
     run.bound("D.control_variants", json!("base, +(1,0), +(0,1) [+(0.5,0) in the fractional family]"));
     run.bound("D.anchor_between_quads", json!("midpoint, +(1,0), +(0,-1), +(0.5,0), +(0,0.5), far"));
+    run.bound("D.anchor_beside_a_line", json!("base position; midpoint of its two neighbours (must not be elided)"));
     run.bound("D.closing_styles", json!(["explicit return + close", "close only (implicit line)"]));
     let mut paths: Vec<Vec<El>> = vec![];
     for k in 1..=kmax {
@@ -1615,6 +1648,19 @@ fn body(run: &Run, replay: Option<&Value>) {
         if reference_len(&g1, 0) != 18 || reference_len(&g1, 1) != 20 || reference_len(&g2, 0) != 318 {
             run.machinery_error("reference_len conformance gate failed");
             return;
+        }
+    }
+    // side observation (not part of the statement, never a verdict): does try_from_iter store the union
+    // of the component boxes?
+    {
+        let c = |gid: u16| Component::new(GlyphId16::new(gid), Anchor::Offset { x: 0, y: 0 }, Transform::default(), ComponentFlags::default());
+        let b1 = Bbox { x_min: 0, y_min: 0, x_max: 10, y_max: 10 };
+        let b2 = Bbox { x_min: -5, y_min: 3, x_max: 20, y_max: 8 };
+        if let Ok(g) = CompositeGlyph::try_from_iter([(c(1), b1), (c(2), b2)]) {
+            run.extra(
+                "side_observation.CompositeGlyph_try_from_iter_bbox",
+                json!({"is_union": g.bbox == b1.union(b2), "is_first_component_box": g.bbox == b1}),
+            );
         }
     }
     sequence_family(run);
